@@ -119,6 +119,7 @@ func newWorldAt(kind, dir, name string, reopen bool) (*World, error) {
 	w.scopes["c2"] = [2]string{"s1", "b"}
 	w.scopes["c3"] = [2]string{"s1", "c"} // not created until a program asks for it (mkcoll)
 	w.scopes["c4"] = [2]string{"s2", "a"} // same collection name as c1, in another scope
+	w.scopes["c5"] = [2]string{"s1", "A"} // c1's name in another case
 	for _, c := range []string{"c0", "c1", "c2"} {
 		if _, err := w.openColl(c, "h0"); err != nil {
 			return nil, err
@@ -519,7 +520,7 @@ func (w *World) exec(l Line) (res string) {
 		return w.readback(c, key, l.str("n", ""))
 	case "query":
 		needColl()
-		return w.query(c, int(l.u64("q", 1)))
+		return w.query(c, int(l.u64("q", 1)), l.str("adhoc", "1") != "0")
 	case "putddoc":
 		needColl()
 		return w.putDDoc(c, l)
@@ -1024,8 +1025,8 @@ var queryFamily = map[int]string{
 	6: `SELECT json_quote(id) AS id FROM $_keyspace WHERE json_valid(body) AND body->>'$.a' >= 50 ORDER BY id`,
 }
 
-func (w *World) query(c *rosmar.Collection, q int) string {
-	it, err := c.Query(sgbucket.SQLiteLanguage, queryFamily[q], nil, sgbucket.RequestPlus, true)
+func (w *World) query(c *rosmar.Collection, q int, adhoc bool) string {
+	it, err := c.Query(sgbucket.SQLiteLanguage, queryFamily[q], nil, sgbucket.RequestPlus, adhoc)
 	if err != nil {
 		return "r=" + errClass(err)
 	}
